@@ -182,9 +182,11 @@ def check_config(cd, *, mps):
         e = comm["eps"][0]
         if e["attr"] & 3 != 3 or not e["addr"] & 0x80:
             p.append("notification endpoint %02x attributes %02x is not interrupt IN" % (e["addr"], e["attr"]))
-        if not 1 <= e["mps"] <= 64 or e["interval"] < 1:
+        if not 1 <= e["mps"] <= 1024 or not 1 <= e["interval"] <= 255:
             p.append("notification endpoint wMaxPacketSize %d bInterval %d" % (e["mps"], e["interval"]))
         info["ep_notify"] = e["addr"] & 0x0F
+        info["notify_mps"] = e["mps"]
+        info["notify_interval"] = e["interval"]
     ins = [e for e in data["eps"] if e["addr"] & 0x80]
     outs = [e for e in data["eps"] if not e["addr"] & 0x80]
     if len(ins) != 1 or len(outs) != 1:
